@@ -1,7 +1,7 @@
 import inspect
 import typing
 
-from .deferred import Deferred, SizedDeferred, DeferredCycle, wait
+from .deferred import Deferred, SizedDeferred, DeferredCycle, wait, try_compute
 from . import operators
 from . import reports
 from .types import CodeBlock
@@ -29,6 +29,11 @@ def wait_for(arg_token, value):
     try:
         return wait(value)
     except DeferredCycle:
+        if try_compute.depth > 0:
+            # Met while some other value is only being tried early (which may
+            # itself be what made the circle): whoever needs this value in the
+            # end finds out whether it really depends on itself
+            raise
         reports.error(
             "recursive-definition",
             (arg_token.ctx_start, arg_token.ctx_end, "This value depends on itself and thus cannot be determined.\nCheck the symbols it mentions for definitions that refer to each other, and sizes that depend on labels placed after them.")
